@@ -11,7 +11,11 @@ Three tiers of correspondence, all on the real code:
   3. daemon: environments are sent to a real ebuild daemon through `run_phase` (inline and file) and
              `_run_depend_like_phase("gen_ebuild_env")` with a one-ebuild repository; the ebuild dumps its
              variables; the pipe traffic is recorded and compared with the model's framing; after every transfer
-             the daemon must answer `alive` and accept a second transfer.
+             the daemon must answer `alive` and accept a second transfer.  Besides the VT_* names every transfer after the
+             first carries ordinary names (words, letters, and every identifier the daemon's bash sources declare `local`)
+             that are not in the daemon's own blacklist PKGCORE_BLACKLIST_VARS (dumped by the daemon itself).
+File-mode hand-overs are also run as histories through one tmpdir: a mapping, a different mapping of the same serialised
+length, and the same again.
 """
 import io
 import os
@@ -34,6 +38,8 @@ OBLIGATIONS = [
     "Pkgcore.C31.transfer_inline_exact",
     "Pkgcore.C31.transfer_file_exact",
     "Pkgcore.C31.transfer_depend_exact",
+    "Pkgcore.C31.env_arrives_from_inside_a_function",
+    "Pkgcore.C31.receiving_frame_counterexample",
     "Pkgcore.C31.legacy_quote_counterexample",
     "Pkgcore.C31.legacy_elem_counterexample",
     "Pkgcore.C31.legacy_framing_counterexample",
@@ -50,9 +56,12 @@ TRUSTED = [
     "real pipe by another process) and by the recorded real-daemon round trips, which include inline transfers of 68-110 KiB",
 ]
 ASSUMPTIONS = [
-    "keys are valid shell names, pairwise distinct, not names the daemon itself manages (IFS, PATH, PKGCORE_*, readonly "
-    "names are skipped by design) and not already exported in the daemon; values are str or sequences of str without NUL "
-    "and without lone surrogates",
+    "keys are valid shell names, pairwise distinct, not names the daemon itself manages — i.e. not matching an entry of the "
+    "daemon's own registry PKGCORE_BLACKLIST_VARS (bash's variables, IFS, PATH, PKGCORE_.*, ___.*, ret, com, line, cont, phases, "
+    "is_depends, the PMS/portage names; read from the running daemon on every run), not starting with `__`/`pkgcore_` (the "
+    "daemon's function-local convention), not readonly (skipped by design) — and not already exported in the daemon; every "
+    "other name, in particular ordinary lower-case words and the names the daemon's functions use as locals, is inside the "
+    "domain; values are str or sequences of str without NUL and without lone surrogates",
     "the processor's pipe encodes text as UTF-8 (Python UTF-8 mode / UTF-8 locale); the daemon is started with the "
     "environment EbuildProcessor.__init__ builds (no LANG/LC_*), i.e. in the C locale, so `read -N` counts bytes",
     "file mode: the tmpdir path contains no newline/backslash and no leading/trailing blank (the header line is read with "
@@ -60,7 +69,9 @@ ASSUMPTIONS = [
     "bash 5.2 doubles its internal marker bytes 0x01/0x7f inside \"…\" in array literals and right after a backslash in "
     "\"…\"/$'…' (observed); the model treats these contexts as unsupported and the fixed code never emits them there",
 ]
-RULE = ("environment mappings with 1-12 entries: names VT_*/_*/lower-case, scalar or list values built from segments mixing "
+RULE = ("environment mappings with 1-12 entries: names VT_*/_*/lower-case, ordinary words (data, size, name, value, i, x, …) and, on "
+        "the real daemon, every identifier the daemon's own bash sources declare `local` (minus the daemon's blacklist); "
+        "scalar or list values built from segments mixing "
         "alphanumerics, blanks, ' \" \\ $ ` newline tab CR, backslash sequences (\\n, \\', \\\\, \\x41, \\0), $VAR/${x}/$(cmd), "
         "glob and history characters, control bytes 0x01/0x7f/0x1b, 2-, 3- and 4-byte UTF-8 characters, empty and long "
         "values, and mappings of 68-110 KiB (long file-list array / one long value / hundreds of entries: more than a pipe holds); "
@@ -123,30 +134,30 @@ def gen_tables(repo):
 # count after the last blank, `read -r -N count`, `eval` under IFS=NUL, then `read -r` whatever is left on that
 # line of the pipe); mode `source` sources the file.  Variables are dumped NUL-separated and unset again.
 RUNNER = r'''
-dir=$1; n=$2; lib=$3
-if [[ -n ${lib} ]]; then
+__dir=$1; __njobs=$2; __lib=$3
+if [[ -n ${__lib} ]]; then
 	# the daemon's own __ebd_read_line / __ebd_read_size (ebuild-daemon-lib.bash); its die must not end the batch
 	die() { __died=1; }
-	source "${lib}"
+	source "${__lib}"
 	die() { __died=1; }
 fi
-exec 3> "${dir}/out"
-for (( __i = 0; __i < n; __i++ )); do
-	mapfile -t __names < "${dir}/${__i}.names"
+exec 3> "${__dir}/out"
+for (( __i = 0; __i < __njobs; __i++ )); do
+	mapfile -t __names < "${__dir}/${__i}.names"
 	__mode=${__names[0]}
 	__names=( "${__names[@]:1}" )
 	__tail=; __died=
 	if [[ ${__mode} == source ]]; then
-		source "${dir}/${__i}.sh" 2>/dev/null
+		source "${__dir}/${__i}.sh" 2>/dev/null
 		__st=$?
 	else
-		if [[ -e ${dir}/${__i}.pipe ]]; then
-			exec 4< <(cat "${dir}/${__i}.sh")      # through a real pipe, written by another process
+		if [[ -e ${__dir}/${__i}.pipe ]]; then
+			exec 4< <(cat "${__dir}/${__i}.sh")      # through a real pipe, written by another process
 		else
-			exec 4< "${dir}/${__i}.sh"
+			exec 4< "${__dir}/${__i}.sh"
 		fi
 		__hdr=; __data=
-		if [[ ${__mode} == chan && -n ${lib} ]]; then
+		if [[ ${__mode} == chan && -n ${__lib} ]]; then
 			PKGCORE_EBD_READ_FD=4
 			__ebd_read_line __hdr
 			__cnt=${__hdr##* }
@@ -308,12 +319,23 @@ def gen_big(rng, prefix="VT_", kinds=(0, 1, 2)):
     return env
 
 
+# ordinary names: the words and letters shell code uses for its own variables
+ORDINARY = ["data", "size", "i", "j", "k", "n", "x", "y", "e", "f", "v", "s", "a", "b", "c", "d", "p", "t", "var", "val", "name", "value",
+            "tmp", "arg", "args", "cmd", "result", "out", "buf", "count", "len", "path", "file", "files", "dir", "key", "str", "msg",
+            "status", "mode", "opt", "opts", "env", "src", "dest", "list", "item", "input", "output", "flag", "flags", "text", "word",
+            "error_output"]      # the last one: a main-loop local of the pre-fix daemon (finding C31-main-loop-local-catches-variable)
+
+
 def gen_env(rng, idx, daemon=False, ro=()):
     env = {}
     n = rng.choice([1, 2, 3, 5, 8, 12])
     for j in range(n):
         if daemon:
             name = "VT_" + rng.choice(["a", "B", "x9", "_"]) + str(j)
+        elif rng.random() < 0.2:
+            name = rng.choice(ORDINARY)
+            if name in env:
+                continue
         else:
             name = rng.choice(["VT_", "_", "v", "Q_", "export", "declare"]) + rng.choice(["a", "B1", "_", ""]) + str(j)
         if rng.random() < 0.25:
@@ -328,6 +350,20 @@ def gen_env(rng, idx, daemon=False, ro=()):
         sep = rng.choice([" ", " ", "  ", "\t", "\n", " \u00a0 "])
         env[MARKER] = sep.join(names) + rng.choice(["", " ", "\n"])
     return env
+
+
+def same_length_sibling(env):
+    """a *different* mapping whose serialised text has the same byte length: one value reversed (same characters, hence the
+    same quoting form and the same number of escapes) — what consecutive hand-overs of a build look like (a flag 4 -> 8, a
+    version 1.2.3 -> 1.2.4)"""
+    for k, v in env.items():
+        if k == MARKER:
+            continue
+        if isinstance(v, str) and v[::-1] != v:
+            return dict(env, **{k: v[::-1]})
+        if not isinstance(v, str) and list(reversed(v)) != list(v):
+            return dict(env, **{k: list(reversed(v))})
+    return None
 
 
 CORPUS = [
@@ -500,7 +536,8 @@ EBUILD_DUMP = r'''
 __vt_dump() {
 	local __n __c
 	{
-		for __n in "${!VT_@}"; do
+		for __n in "${!VT_@}" ${VTNAMES} PKGCORE_BLACKLIST_VARS; do
+			declare -p "${__n}" &>/dev/null || continue
 			local -n __r=${__n}
 			__c=$(declare -p "${__n}")
 			__c=${__c#declare -}
@@ -512,6 +549,35 @@ __vt_dump() {
 }
 if [[ -n ${VTOUT} ]]; then __vt_dump; fi
 '''
+
+
+def harvest_locals(ebd_path):
+    """every identifier the daemon's bash sources declare `local` (or `declare` inside a function): the names most at risk of
+    being caught by a function frame when they are transferred"""
+    import glob
+    import re
+    names = set()
+    for f in sorted(glob.glob(os.path.join(ebd_path, "**", "*.bash"), recursive=True) +
+                    glob.glob(os.path.join(ebd_path, "**", "*.lib"), recursive=True)):
+        for m in re.finditer(r"^\s*(?:local|declare)\s+([^\n;#]*)", open(f, errors="replace").read(), re.M):
+            for tok in m.group(1).split():
+                n = tok.split("=")[0]
+                if not tok.startswith("-") and re.fullmatch(r"[A-Za-z_][A-Za-z0-9_]*", n):
+                    names.add(n)
+    return names
+
+
+def ordinary_names(ebd_path, blacklist, ro):
+    """candidate names inside the property's domain: harvested locals + ORDINARY, minus what the daemon declares its own"""
+    import re
+    out = []
+    for n in sorted(harvest_locals(ebd_path) | set(ORDINARY)):
+        if n in ro or n.isupper() or n.startswith("__") or n.lower().startswith("pkgcore_") or n in ("VTOUT", "VTNAMES"):
+            continue
+        if any(re.fullmatch(b, n) for b in blacklist):
+            continue
+        out.append(n)
+    return out
 
 
 def parse_dump(path):
@@ -606,6 +672,15 @@ def _run(ctx, processor, rng, scratch):
         envs.append((gen_env(rng, i, ro=ro), "random"))
     for i in range(ctx.n(3, 30)):
         envs.append((gen_big(rng), "big"))
+    # histories on the transfer file: consecutive file-mode hand-overs through the same tmpdir whose texts differ but have
+    # the same length (and one repeated unchanged)
+    pairs = [e for e in CORPUS if same_length_sibling(e)] + [{"VT_flag": "4", "VT_ver": "1.2.3", "VT_phase": "compile"}]
+    for i in range(ctx.n(40, 600)):
+        e = gen_env(rng, 100000 + i, ro=ro)
+        if same_length_sibling(e):
+            pairs.append(e)
+    for e in pairs:
+        envs += [(e, "file-history"), (same_length_sibling(e), "file-history"), (same_length_sibling(e), "file-history")]
     keyerr = [(e, "keyerror") for e in KEYERR_CORPUS]
 
     stub = StubProcessor(processor, ro)
@@ -663,6 +738,8 @@ def _run(ctx, processor, rng, scratch):
             names = [k for k in env if k != MARKER and k not in ro]
             # the real framing code: send_env inline, send_env file, _run_depend_like_phase (gen_metadata)
             which = len(jobs) % 3
+            if kind == "file-history":
+                which = 1
             if kind == "big":
                 which = 0 if len(jobs) % 2 == 0 else 2
                 piped.add(len(jobs))
@@ -795,8 +872,21 @@ def _daemon(ctx, processor, rng, scratch, ro):
         big = {"VT_big%d" % i: gen_value(rng) * 40 + "é'\\" * 2000 for i in range(8)}
         plans.append((big, merged, routes))
     frame_reqs, frame_seen = [], []
+    from pkgcore.ebuild import const as e_const
+    blacklist, ordinary = None, []
     for env1, env2, env_routes in plans:
         for route in env_routes:
+            if blacklist is not None:
+                # ordinary names (words, letters, the daemon's own function locals) next to the VT_ ones: all of them in the first
+                # transfer with short values, a random dozen with hostile values in the second
+                env1 = dict(env1)
+                env2 = dict(env2)
+                for n in ordinary:
+                    forms = ["", "1", "value of " + n, "it's \\ $x", ["a", "b c"]]
+                    env1.setdefault(n, forms[4] if n == "error_output" else rng.choice(forms))
+                for n in rng.sample(ordinary, min(12, len(ordinary))):
+                    env2.setdefault(n, gen_value(rng) if rng.random() < 0.8 else [gen_value(rng), gen_value(rng)])
+                ctx.count("daemon_transfers_with_ordinary_names")
             case = {"env": env1, "env_second_transfer": env2, "kind": "daemon-" + route}
             t_plan = time.time()
             out = os.path.join(scratch, "dump")
@@ -805,20 +895,24 @@ def _daemon(ctx, processor, rng, scratch, ro):
             ebp = processor.request_ebuild_processor()
             rec = Recorder(ebp.ebd_write)
             ebp.ebd_write = rec
-            err = None
+            err, seq = None, [env1, env2]
             try:
                 with Watchdog(ebp) as wd:
-                    for env in (env1, env2):   # the second transfer on the same daemon is the "next request"
+                    seq = [env1, env2]          # the second transfer on the same daemon is the "next request"
+                    if route == "file" and same_length_sibling(env2):
+                        seq.append(same_length_sibling(env2))       # same tmpdir, same length, different text
+                    for env in seq:
                         if os.path.exists(out):
                             os.unlink(out)
+                        extra = " ".join(k for k in env if not k.startswith("VT_") and k != MARKER and k not in ro)
                         if route == "depend":
-                            e = dict(env, VTOUT=out)
+                            e = dict(env, VTOUT=out, VTNAMES=extra)
                             ebp._run_depend_like_phase("gen_ebuild_env", pkg, repo.eclass_cache, env=e,
                                                        extra_commands={"receive_env": _receive_env})
                             ok = True
                         else:
                             e = processor.expected_ebuild_env(pkg, depends=True)
-                            e.update(env, VTOUT=out, PATH=os.environ.get("PATH", "/usr/bin:/bin"), T=tdir)
+                            e.update(env, VTOUT=out, VTNAMES=extra, PATH=os.environ.get("PATH", "/usr/bin:/bin"), T=tdir)
                             ok = ebp.run_phase("pretend", e, tmpdir=tdir if route == "file" else None, sandbox=False)
                         if not ok:
                             err = "the phase failed"
@@ -827,7 +921,13 @@ def _daemon(ctx, processor, rng, scratch, ro):
                             err = "the daemon does not answer `alive` after the transfer"
                             break
                         got = {k: ("a" in f, [x.decode("latin-1") for x in v], "x" in f) for k, (f, v) in parse_dump(out).items()}
-                        want = {k: v for k, v in wanted_store(env, ro).items() if k.startswith("VT_")}
+                        bl = got.pop("PKGCORE_BLACKLIST_VARS", None)
+                        if blacklist is None and bl is not None:
+                            blacklist = bl[1]
+                            ordinary = ordinary_names(e_const.EBD_PATH, blacklist, ro)
+                            ctx.extra["daemon_blacklist_entries"] = len(blacklist)
+                            ctx.extra["ordinary_names_sent"] = ordinary
+                        want = {k: v for k, v in wanted_store(env, ro).items() if k.startswith("VT_") or k in extra.split()}
                         if got != want:
                             bad = sorted(k for k in set(got) | set(want) if got.get(k) != want.get(k))[:3]
                             err = (f"the daemon ends up with {[(k, got.get(k)) for k in bad]!r}, the mapping asks for "
@@ -849,7 +949,7 @@ def _daemon(ctx, processor, rng, scratch, ro):
             ctx.case(case, True, key=route + repr(sorted(env1.items())) + repr(sorted(env2.items())))
             ctx.count("daemon_" + route)
             ctx.extra.setdefault("daemon_plan_seconds", []).append([route, sum(len(str(v)) for v in env1.values()) // 1024, round(time.time() - t_plan, 1)])
-            ctx.traces += 2 if err is None else 1
+            ctx.traces += len(seq) if err is None else 1
             if err is not None:
                 ctx.violation(case, f"{route} transfer to a real daemon: {err}")
                 continue
